@@ -226,11 +226,11 @@ CHECKS = {
     "C07": dict(
         engine="E1-collector",
         technique="Coq proof over functions REGENERATED from /repo/src by a fail-closed Python-ast translator (pure.py) and proved equal to the model + Coq proof (closure and identity-cache injectivity as step invariants over all fuel; locals()-alias refutation witness) + in-Coq correspondence with the real collector on graphs with sharing and cycles",
-        text="9 Coq theorems over Collector.v: the traversal of any heap (cycles, sharing) is finished after mu steps (explicit measure); in every reachable collector state every reference (roots, children, queued "
+        text="11 Coq theorems over Collector.v: the traversal of any heap (cycles, sharing) is finished after mu steps (explicit measure); in every reachable collector state every reference (roots, children, queued "
              "parents) is in the table's domain; the identity cache is injective (one id per object, distinct objects "
              "distinct ids); entries never exceed distinct reachable objects; a checked refutation witness for a local bound "
              "to the frame's own locals() (recorded known finding). Tied to the code on sharing/cycle-weighted graphs, tiny "
-             "budgets, watches already in / first seen outside the frame, compared inside Coq. Tie T2: process_variable is translated from source on every run (coq/gen/PCollect.v) and proved to be the model's step on one object: identity first (a known object keeps its id, nothing added, not expanded again), a new object gets the next id and exactly one entry carrying its identity (TieTraverse.v).",
+             "budgets, watches already in / first seen outside the frame, compared inside Coq. Tie T2: process_variable is translated from source on every run (coq/gen/PCollect.v) and proved to be the model's step on one object: identity first (a known object keeps its id, nothing added, not expanded again), a new object gets the next id and exactly one entry carrying its identity (TieTraverse.v); VariableSetProcessor.process_variable (one root: locals, a watch or captured value) over the translated traversal is the model's collect_root, and a root already recorded answers its id with nothing added (TieRoot.v).",
         note="Trusted: Coq kernel+VM; harness; id() injective on live objects. Known finding: locals() aliasing.",
         design="5-C07"),
     "C18": dict(
@@ -298,9 +298,9 @@ def main():
                  serves_properties=["C01", "C14", "C20"], kind_free_text="exception-flow language with verified may-escape / return-path / loop analyses; skeletons regenerated from the Python source by a fail-closed ast translator on every run; fault injection"),
             dict(name="E6-wire", path="coq/theories/Wire.v coq/theories/WireProofs.v coq/gen/WireMap.v harness/translate/wiremap.py harness/props/c08.py",
                  serves_properties=["C08"], kind_free_text="records as finite maps, table-driven conversion, losslessness law; tables regenerated from the converter functions; serialise/parse oracle"),
-            dict(name="E7-translated-functions", path="harness/translate/pure.py coq/theories/PureSupport.v coq/gen/PLimits.v coq/gen/PMatch.v coq/gen/PCollect.v coq/gen/PChildren.v coq/gen/PRender.v coq/gen/PSelect.v coq/gen/PEvent.v coq/gen/PTruth.v coq/gen/PGate.v coq/gen/PTable.v coq/gen/PFrames.v coq/gen/PStore.v coq/gen/PService.v coq/gen/PRegistry.v coq/gen/PCallbacks.v coq/gen/PMetrics.v coq/gen/PHooks.v coq/gen/PSpans.v coq/theories/TieSpans.v coq/theories/TieLimits.v coq/theories/TieMatch.v coq/theories/TieCollect.v coq/theories/TieTraverse.v coq/theories/TieNames.v coq/theories/TieChildren.v coq/theories/TieRender.v coq/theories/TieSelect.v coq/theories/TieEvent.v coq/theories/TieEventHit.v coq/theories/TieTruth.v coq/theories/TieGate.v coq/theories/TieHit.v coq/theories/TieTable.v coq/theories/TieFrames.v coq/theories/TieStore.v coq/theories/TieService.v coq/theories/TieRegistry.v coq/theories/TieCallbacks.v coq/theories/TieMetrics.v coq/theories/TieHooks.v tools/mutate_pure.py",
+            dict(name="E7-translated-functions", path="harness/translate/pure.py coq/theories/PureSupport.v coq/gen/PLimits.v coq/gen/PMatch.v coq/gen/PCollect.v coq/gen/PChildren.v coq/gen/PRender.v coq/gen/PSelect.v coq/gen/PEvent.v coq/gen/PTruth.v coq/gen/PGate.v coq/gen/PTable.v coq/gen/PFrames.v coq/gen/PStore.v coq/gen/PService.v coq/gen/PRegistry.v coq/gen/PCallbacks.v coq/gen/PMetrics.v coq/gen/PHooks.v coq/gen/PSpans.v coq/theories/TieSpans.v coq/theories/TieLimits.v coq/theories/TieMatch.v coq/theories/TieCollect.v coq/theories/TieTraverse.v coq/theories/TieRoot.v coq/theories/TieNames.v coq/theories/TieChildren.v coq/theories/TieRender.v coq/theories/TieSelect.v coq/theories/TieEvent.v coq/theories/TieEventHit.v coq/theories/TieTruth.v coq/theories/TieGate.v coq/theories/TieHit.v coq/theories/TieTable.v coq/theories/TieFrames.v coq/theories/TieStore.v coq/theories/TieService.v coq/theories/TieRegistry.v coq/theories/TieCallbacks.v coq/theories/TieMetrics.v coq/theories/TieHooks.v tools/mutate_pure.py",
                  serves_properties=["C02", "C03", "C04", "C05", "C07", "C10", "C11", "C12", "C13", "C14", "C15", "C17", "C18", "C19", "C20"],
-                 kind_free_text="55 functions of the agent translated statement by statement into Gallina on every run by a fail-closed Python-ast translator and proved equal to the functions of the hand-written models; property theorems stated over the translated code"),
+                 kind_free_text="56 functions of the agent translated statement by statement into Gallina on every run by a fail-closed Python-ast translator and proved equal to the functions of the hand-written models; property theorems stated over the translated code"),
             dict(name="E4-stores", path="coq/theories/Attrs.v coq/theories/AttrsProofs.v coq/theories/Config.v harness/props/c18.py harness/props/c19.py",
                  serves_properties=["C18", "C19"], kind_free_text="Gallina models of the attribute store, resources, configuration resolution; proofs; in-Coq correspondence"),
         ],
